@@ -126,6 +126,10 @@ def scenarios(rng: random.Random, tier: str):
             evs = [f"rx {order[0]} " + nodegen.ccr(hb, n(), names[order[0]]), f"rx {order[1]} " + nodegen.ccr(hb, n(), names[order[1]]),
                    leave, "ans 0 %d 2001" % order.index(0), "ans 0 %d 2001" % order.index(1)]
             out.append(pre2 + " | " + " | ".join(evs))
+    # identifiers at the edges of their range are the peer's choice: the answer goes out all the same
+    pre0 = cfg + " | start | acc | rx 0 " + nodegen.cer("peer1.x", "4", n(), n())
+    for hb, ee in ((0, n()), (n(), 0), (0, 0), (4294967295, 4294967295), (1, 1)):
+        out.append(pre0 + f" | rx 0 {nodegen.ccr(hb, ee, 'peer1.x')} | ans 0 0 2001 | ans 0 0 2001")
     # a peer with two established connections (overlapping reconnect): requests pending on both, the DPR arrives on one of
     # them; the answer for the request on that one is not routable, the other connection still gets its answer
     for dpr_on in (0, 1):
